@@ -142,9 +142,13 @@ class RecStore(MemoryWorkflowStore):
     rec = None
     y = 0
 
+    lat = 0      # latency of a read / append in time units (a networked store)
+
     async def _yield(self):
         for _ in range(self.y):
             await asyncio.sleep(0)
+        if self.lat:
+            await asyncio.sleep(self.lat / U)
 
     async def query(self, q):
         await self._yield()
@@ -369,8 +373,10 @@ class Recorder:
             self.bodies[key] = self.bodies.get(key, 0) - 1
         elif what == "send":
             self.pending_sends[(name, i, rn)].append(arg)
+        h = self.handler()
         self.ev("body", step=name, i=i, retry=rn, what=what, arg=arg,
-                concurrent=self.bodies.get(key, 0), loops=len(self.live_loops()))
+                concurrent=self.bodies.get(key, 0), loops=len(self.live_loops()),
+                marked_idle=(h is not None and h.idle_since is not None))
 
     # ---- hooks: store
     def on_tick_persisted(self, tick_data):
@@ -590,10 +596,11 @@ class Chain:
 # ------------------------------------------------------------------ scenarios
 def gen_case(rng, kind=None):
     """ops: list of (time_units, op, payload), sorted by time."""
-    kinds = ["plain", "self", "retry", "wait", "waitresp", "crash", "boundary", "zero", "yield", "startup"]
+    kinds = ["plain", "self", "retry", "wait", "waitresp", "crash", "boundary", "zero", "yield", "startup", "burst", "latency"]
     kind = kind or rng.choice(kinds)
     tau = rng.choice([8, 16, 32, 64, 96])
     y = 0
+    lat = 0
     ops = []
     t = rng.choice([4, 8, 16])
     nid = itertools.count(1)
@@ -640,7 +647,25 @@ def gen_case(rng, kind=None):
         ops.append((t, "resp", e["i"]))
         t += gap()
         ops.append((t, "send", plain_ev(fin=True)))
+    elif kind == "burst":
+        # several senders reach a released run at the same instant (one must reload, the others must not)
+        y = rng.choice([0, 0, 1, 2])
+        ops.append((t, "send", plain_ev(dur=0.0)))
+        t += tau + rng.choice([1, 5, tau])
+        for _ in range(rng.randint(2, 3)):
+            ops.append((t, "send", plain_ev(dur=rng.choice([0, 4]) / U)))
+        t += 3 * tau + 20
+        ops.append((t, "send", plain_ev(fin=True)))
+    elif kind == "latency":
+        # a store with latency: senders arrive while the releaser (due at t + tau) is inside its query
+        lat = rng.choice([1, 2, 3])
+        ops.append((t, "send", plain_ev(dur=0.0)))
+        # idle mark is written `lat`-ish after the step result; try arrival times around the due time
+        for dtt in sorted(set(rng.sample(range(0, 4 * lat + 3), 2))):
+            ops.append((t + tau + dtt, "send", plain_ev(dur=0.0)))
+        ops.append((t + 6 * tau + 80, "send", plain_ev(fin=True)))
     elif kind == "boundary":
+        y = rng.choice([0, 0, 1, 2, 3])
         # a send exactly when the releaser of the first idle mark fires, and one just before / after
         e = plain_ev(dur=0.0)
         ops.append((t, "send", e))
@@ -678,7 +703,7 @@ def gen_case(rng, kind=None):
             t += rng.choice([0, 1, tau - 1 if tau > 1 else 1, tau, tau + 1, 2 * tau])
     ops.sort(key=lambda o: (o[0], 0 if o[1] == "policy" else 1))
     horizon = max(o[0] for o in ops) + 6 * max(tau, 16) + 400
-    return dict(kind=kind, tau=tau, y=y, ops=ops, horizon=horizon)
+    return dict(kind=kind, tau=tau, y=y, lat=lat, ops=ops, horizon=horizon)
 
 
 def run_case(case, reference=False):
@@ -694,6 +719,7 @@ def run_case(case, reference=False):
         store = RecStore()
         store.rec = rec
         store.y = 0 if reference else case["y"]
+        store.lat = 0 if reference else case.get("lat", 0)
         chain = Chain(store, rec, tau_units / U)
         rec.chain, rec.wf = chain, chain.wf
         await chain.svc.start()
@@ -801,21 +827,27 @@ def analyze(case, rec, res, ref=None):
             break
 
     # ---- C26: at most one resumer takes ownership
-    owners = 0
+    owners = []
+    race_errors = set()
     for e in log:
         if e["kind"] in ("release", "crash"):
-            owners = 0
+            owners = []
         elif e["kind"] == "run-workflow":
             if e["ok"]:
-                owners += 1
+                owners.append(e["by"])
                 count("reloads_by_" + e["by"])
-                if owners > 1:
-                    issue("C26", None, "two resumers started the run after one release")
-            else:
+                if len(owners) > 1:
+                    issue("C26", None, "two resumers (%s) started the run after one release" % ", ".join(owners))
+            elif "startup" in owners + [e["by"]] and "already exists" in (e["error"] or ""):
+                # the known mechanism: server-start resumption (no reload lock) against a sender's reload
                 count("startup_races")
+                race_errors.add(e["error"])
                 issue("C26", "C26/startup-resume-races-sender-reload",
                       "server start resumed the run while a sender was reloading it: the second workflow.run "
-                      "raised '%s' (by %s)" % ((e["error"] or "")[:60], e["by"]))
+                      "raised '%s' (by %s after %s)" % ((e["error"] or "")[:60], e["by"], owners))
+            else:
+                issue("C26", None, "a second resumer (%s after %s) called workflow.run for a run that is in memory: %s"
+                      % (e["by"], owners, (e["error"] or "")[:80]))
 
     # ---- C26 / C14: what a release drops
     for e in releases:
@@ -858,12 +890,14 @@ def analyze(case, rec, res, ref=None):
         if ("h", i) in exited:
             count("processed")
             continue
-        if t_fin is not None and not (("h", i) in entered and res["status"] == "running"):
+        if t_fin is not None and i not in sender_err and not (("h", i) in entered and res["status"] == "running"):
             count("sent_but_run_finished_first")
             continue
-        if i in sender_err:
+        if i in sender_err and sender_err[i] in race_errors:
             issue("C26", "C26/startup-resume-races-sender-reload",
                   "event %d was accepted but its sender task died: %s" % (i, sender_err[i][:80]))
+        elif i in sender_err:
+            issue("C26", None, "event %d was accepted but its sender task died: %s" % (i, sender_err[i][:100]))
         elif any(i in r["mail"] for r in releases):
             pass    # reported above (release-drops-undelivered-event)
         elif crashes and i not in persisted:
@@ -881,25 +915,31 @@ def analyze(case, rec, res, ref=None):
     for k, (a, o) in enumerate(rec.trace):
         if a == "EIdleWrite" and o[2] != 1:
             issue("C36", None, "WorkflowIdleEvent published but the handler is not marked idle")
+    for e in log:
+        if e["kind"] == "body" and e["what"] == "enter" and e["step"] != "start" and e["marked_idle"]:
+            issue("C36", None, "step %s starts working on input %s at t=%d while the handler is marked idle"
+                  % (e["step"], e["i"], e["t"]))
+            break
     marks = [e for e in log if e["kind"] == "idle-mark"]
     count("idle_marks", len(marks))
+    slack = 4 * case.get("lat", 0)        # a store with latency delays the mark, the timer and the releaser's query
     for m in marks:
         due = m["idle_since"] + tau
         disturbed = False
         for e in log:
             if e["t"] < m["t"] or e is m:
                 continue
-            if e["t"] > due:
+            if e["t"] > due + slack:
                 break
             if e["kind"] in ("sender-begin", "crash", "idle-mark", "finished") or (
                     e["kind"] == "tick" and e.get("type") != "idle_check" and e["t"] >= m["t"]
                     and log.index(e) > log.index(m)):
                 disturbed = True
                 break
-        if disturbed or due > case["horizon"] - 2:
+        if disturbed or due + slack > case["horizon"] - 2:
             continue
         count("undisturbed_idle_periods")
-        if not any(r["t"] == due for r in releases):
+        if not any(due <= r["t"] <= due + slack for r in releases):
             issue("C36", None, "run idle since t=%d, idle_timeout=%d: not released at t=%d" % (m["idle_since"], tau, due))
         else:
             count("released_on_time")
@@ -992,7 +1032,7 @@ def run_suite(ctx, n, props, with_reference=0.35):
     conform value, issues (restricted to `props`)."""
     import core
     rng = random.Random(ctx.seed * 7919 + 11)
-    kinds = ["plain", "self", "retry", "wait", "waitresp", "crash", "boundary", "zero", "yield", "startup"]
+    kinds = ["plain", "self", "retry", "wait", "waitresp", "crash", "boundary", "zero", "yield", "startup", "burst", "latency"]
     out, exprs, total = [], [], {}
     corpus = corpus_cases()
     for k in range(len(corpus) + n):
